@@ -404,6 +404,18 @@ def entryValue (x : History) (b s : Nat) : Nat := mulDec s x.sWithdraw + mulDec 
 def userBatches (h : HubSt) (u : Addr) : List Nat :=
   (List.range (h.batchId + 1)).filter (fun i => h.waitSet u i)
 
+/-- the exclusive lower bound of a paged read: `start_from` omitted admits every id -/
+def aboveStart (start : Option Nat) (i : Nat) : Bool :=
+  match start with
+  | none => true
+  | some s => decide (s < i)
+
+/-- `all_unbond_history` (the `AllHistory { start_from, limit }` query): the stored entries with a
+    batch id above `start_from`, oldest first, at most `min (limit or 10) 100` of them -/
+def allHistory (h : HubSt) (start limit : Option Nat) : List (Nat × History) :=
+  (((List.range (h.batchId + 1)).filter (aboveStart start)).filterMap
+    (fun i => (h.hist i).map (fun x => (i, x)))).take (min (limit.getD 10) 100)
+
 /-- `get_finished_amount` -/
 def finished (h : HubSt) (u : Addr) : Nat × List Nat :=
   let ids := (h.userBatches u).filter (fun i => match h.hist i with
